@@ -1,0 +1,9 @@
+//go:build verif
+
+package keeper
+
+import sdk "github.com/cosmos/cosmos-sdk/types"
+
+// VerifSharesBeforeModified is a read-only accessor used by the /verif
+// correspondence harness; it is compiled only with the `verif` build tag.
+func VerifSharesBeforeModified() sdk.Dec { return sharesBeforeModified }
